@@ -634,7 +634,7 @@ def random_set(rng, nz, kinds, allow_aux=True, center=None, scale=1.0, allow_fix
             A = np.zeros((1, n))
             A[0, :nz] = np.round(rng.normal(size=nz), 2)
             sl = 0.02 if kind in ('kl', 'entropy') else float(rng.uniform(0.1, 0.8) * scale)
-            b = float(np.round(A[0] @ zc + sl * max(1e-3, np.abs(A[0]).sum()), 3))
+            b = float(np.ceil((A[0] @ zc + sl * max(1e-3, np.abs(A[0]).sum())) * 1000) / 1000)
             prims.append({'t': 'lin', 'A': A.tolist(), 'b': [b]})
         else:
             prims.append({'t': e, 'idx': list(range(nz)), 'D': D(), 'c': cz.tolist(),
